@@ -369,7 +369,7 @@ func genWhite(r *hv.Rand) {
 		{kind: 'A'},
 	}, true)
 
-	n := hv.Scale(500, 6000)
+	n := hv.Scale(420, 1500)
 	for k := 0; k < n; k++ {
 		server := r.Bool()
 		parity := byte(1)
